@@ -74,6 +74,9 @@ func acctIndex(tok string) int {
 			return i
 		}
 	}
+	if len(tok) == 2 && tok[0] == 'L' { // the long addresses L0.. are the indexes -10, -11, ..
+		return -10 - int(tok[1]-'0')
+	}
 	return -1
 }
 
@@ -127,11 +130,14 @@ func newView(r *real.Runner, ctx sdk.Context) *view {
 	}
 
 	v.strFee = a.StreamKeeper.GetParams(ctx).ValidatorFee.BigInt().String()
-	a.StreamKeeper.IterateAllStreams(ctx, func(recv, send sdk.AccAddress, s streamtypes.Stream) bool {
-		v.streams = append(v.streams, streamInfo{r: idxB(recv), s: idxB(send), denom: s.Deposit.Denom, deposit: s.Deposit.Amount,
-			rate: s.FlowRate, zero: s.DepositZeroTime})
-		return false
-	})
+	func() {
+		defer func() { _ = recover() }() // a key the parser chokes on: the digest reports it
+		a.StreamKeeper.IterateAllStreams(ctx, func(recv, send sdk.AccAddress, s streamtypes.Stream) bool {
+			v.streams = append(v.streams, streamInfo{r: idxB(recv), s: idxB(send), denom: s.Deposit.Denom, deposit: s.Deposit.Amount,
+				rate: s.FlowRate, zero: s.DepositZeroTime})
+			return false
+		})
+	}()
 
 	kindOf := map[string]string{}
 	for _, k := range script.Kinds {
